@@ -436,7 +436,9 @@ def check_C08(chk, binp):
             hv = set(H[(str(s), f)] for f in fs)
             npairs += len(fs) - 1
             if len(hv) > 1:
-                viol.append(('positions with the same placement/side/rights/ep-availability hash differently (seed %d)' % s, fs[:2], True))
+                a = fs[0]
+                b = [f for f in fs if H[(str(s), f)] != H[(str(s), a)]][0]
+                viol.append(('positions with the same placement/side/rights/ep-availability hash differently (seed %d)' % s, [a, b], True))
     reps = [fs[0] for fs in groups.values()]
     byhash = {}
     for s in sel_seeds:
@@ -1031,7 +1033,8 @@ def mate_candidates(rnd, n):
     return list(dict.fromkeys(out))
 
 KEEP_DIST = {}
-KNOWN_MATES = ['r3k2r/ppp2Npp/1b5n/4p2b/2B1P2q/BQP2P2/P5PP/RN5K w kq - 1 1', '8/8/8/8/8/k2r4/8/K7 b - - 4 3',
+KNOWN_MATES = ['8/8/3K2Q1/8/k7/8/8/8 w - - 0 1', '8/7Q/3K4/8/k7/8/8/8 w - - 0 1',      # mate in 5 plies, transposition-rich (corpus)
+               'r3k2r/ppp2Npp/1b5n/4p2b/2B1P2q/BQP2P2/P5PP/RN5K w kq - 1 1', '8/8/8/8/8/k2r4/8/K7 b - - 4 3',
                'k7/8/1K6/8/8/8/8/7R w - - 0 1', '6k1/5ppp/8/8/8/8/8/3RK3 w - - 0 1']
 
 def mate_positions(chk, tag, ncand, maxn):
@@ -1139,7 +1142,29 @@ def check_C06(chk, binp):
     chk.samples += [{'case': cases[0], 'mate_in_plies': meta[0][1], 'code': impl[0]}]
     for i, msg in (incomplete + wrongmove + unsound)[:4]:
         chk.violation('%s: %s -> %s' % (msg, cases[i], (impl[i] or '')[:200]), {'kind': 'input', 'case': cases[i], 'what': msg, 'code': impl[i]}, found_input=True)
-    if not (incomplete or wrongmove or unsound):
+    if not (incomplete or wrongmove or unsound) and bm:
+        # violation search: the correspondence is broken; look for a concrete failing input among deeper mates x more seeds
+        # (real code against the solver only, which is cheap)
+        deep = [(f, n, keep) for f, n, keep in wins if n >= 3]
+        vs = []; vmeta = []
+        for f, n, keep in deep:
+            for d in (n, n + 1, n + 2):
+                for sd in range(8):
+                    vs.append('search\t%d\t%d\t%d\t-\t1\t%d\t%d\t-\t%s' % (1000 + sd, 7000 + sd, d, 4, 256, f)); vmeta.append((f, n, keep, d))
+        vi = run_cases(binp, vs, 'C06-vsearch', shards=8)
+        found = []
+        for c, m, out in zip(vs, vmeta, vi):
+            ps = parse_search(out)
+            if not ps or not ps[0]['best']:
+                found.append((c, 'no report', out)); continue
+            ev, line = ps[0]['best'][-1]
+            if ev < 10000:
+                found.append((c, 'forced mate in %d plies, depth %d, reported %d' % (m[1], m[3], ev), out))
+            elif raw_coords(line[0]) not in m[2]:
+                found.append((c, 'first move does not keep the forced mate', out))
+        chk.streams.append({'name': 'violation search after a broken correspondence: deeper mates x 8 seeds x depth n..n+2', 'against': 'forced-mate solver over the extracted rules', 'cases': len(vs), 'disagreements': len(found)})
+        for c, msg, out in found[:3]:
+            chk.violation('%s: %s -> %s' % (msg, c, (out or '')[:200]), {'kind': 'input', 'case': c, 'what': msg, 'code': out}, found_input=True)
         for i in bm[:3]:
             chk.violation('correspondence broken (search model) on %s' % cases[i], {'kind': 'correspondence', 'case': cases[i]}, found_input=False)
 
